@@ -110,11 +110,12 @@ struct id_map
 // kind 0 mpi_plain (2 numbers per call), 1 mpi_vegas (2), 2 mpi_multi_channel (1 + channel = 2), 3 the same with a
 // single channel (the channel draw is made all the same).  Two iterations of `total` calls each.
 template <typename T>
-static void part_b(report& r, int kind, sz total, int world)
+static void part_b(report& r, int kind, sz total, int world, sz total2 = ~sz(0))
 {
+    if (total2 == ~sz(0)) total2 = total;     // calls of the second iteration (a split computed once per run instead of once per iteration shows when they differ)
     char const* const names[] = {"mpi_plain", "mpi_vegas", "mpi_multi_channel", "mpi_multi_channel(1 channel)"};
     std::string const id = std::string(names[kind]) + " " + vf::type_name<T>() + " total=" + std::to_string(total)
-        + " world=" + std::to_string(world);
+        + " world=" + std::to_string(world) + (total2 != total ? " second-iteration=" + std::to_string(total2) : std::string());
     if (!r.want(id)) return;
     r.eval();
     std::vector<sz> per_rank(world);
@@ -130,20 +131,20 @@ static void part_b(report& r, int kind, sz total, int world)
         counting_integrand<T>::points().clear();
         if (kind == 0)
         {
-            auto chk = hep::mpi_plain(comm, hep::make_integrand<T>(counting_integrand<T>(), 2), std::vector<sz>{total, total},
+            auto chk = hep::mpi_plain(comm, hep::make_integrand<T>(counting_integrand<T>(), 2), std::vector<sz>{total, total2},
                 hep::make_plain_chkpt<T, E>(), vf::never_stop_mpi());
             end_pos[rank] = chk.generator().position(); reported[rank] = chk.results().back().calls();
         }
         else if (kind == 1)
         {
-            auto chk = hep::mpi_vegas(comm, hep::make_integrand<T>(counting_integrand<T>(), 2), std::vector<sz>{total, total},
+            auto chk = hep::mpi_vegas(comm, hep::make_integrand<T>(counting_integrand<T>(), 2), std::vector<sz>{total, total2},
                 hep::make_vegas_chkpt<T, E>(3, T(0.75), E()), vf::never_stop_mpi());
             end_pos[rank] = chk.generator().position(); reported[rank] = chk.results().back().calls();
         }
         else
         {
             auto chk = hep::mpi_multi_channel(comm, hep::make_multi_channel_integrand<T>(counting_mc_integrand<T>(), 1, id_map<T>(), 1, kind == 3 ? 1 : 2),
-                std::vector<sz>{total, total}, hep::make_multi_channel_chkpt<T, E>(T(0.015625), T(0.5), E()), vf::never_stop_mpi());
+                std::vector<sz>{total, total2}, hep::make_multi_channel_chkpt<T, E>(T(0.015625), T(0.5), E()), vf::never_stop_mpi());
             end_pos[rank] = chk.generator().position(); reported[rank] = chk.results().back().calls();
         }
         per_rank[rank] = counting_integrand<T>::calls();
@@ -157,32 +158,34 @@ static void part_b(report& r, int kind, sz total, int world)
     sz sum = 0, mn = ~sz(0), mx = 0;
     for (int k = 0; k != world; ++k)
     {
-        sum += per_rank[k]; mn = std::min(mn, per_rank[k] / 2); mx = std::max(mx, (per_rank[k] + 1) / 2);   // per iteration
-        if (per_rank[k] != 2 * share(total, k, world))
+        sum += per_rank[k];
+        if (total2 == total) { mn = std::min(mn, per_rank[k] / 2); mx = std::max(mx, (per_rank[k] + 1) / 2); }   // per iteration
+        else { mn = mx = 0; }
+        if (per_rank[k] != share(total, k, world) + share(total2, k, world))
             r.violate("evaluations-differ-from-the-share-implied-by-discard_before", id, id + ": rank " + std::to_string(k) + " evaluated "
                 + std::to_string(per_rank[k]) + " points in two iterations, discard_before places its share at [" + std::to_string(hep::discard_before(total, k, world))
                 + ", +" + std::to_string(share(total, k, world)) + ")");
-        if (end_pos[k] != 4 * total)
+        if (end_pos[k] != 2 * (total + total2))
             r.violate("rank-does-not-end-at-total", id, id + ": rank " + std::to_string(k) + " ends at stream position "
-                + std::to_string(end_pos[k]) + " instead of " + std::to_string(4 * total) + " after two iterations");
-        if (reported[k] != total)
+                + std::to_string(end_pos[k]) + " instead of " + std::to_string(2 * (total + total2)) + " after two iterations");
+        if (reported[k] != total2)
             r.violate("calls-do-not-sum-to-total", id, id + ": reported calls " + std::to_string(reported[k]));
     }
-    if (sum != 2 * total) r.violate("calls-do-not-sum-to-total", id, id + ": sum of per-rank evaluations " + std::to_string(sum));
+    if (sum != total + total2) r.violate("calls-do-not-sum-to-total", id, id + ": sum of per-rank evaluations " + std::to_string(sum));
     if (mx - mn > 1) r.violate("calls-differ-by-more-than-one", id, id + ": max-min=" + std::to_string(mx - mn));
-    if (kind == 0 && sum == 2 * total)
+    if (kind == 0 && sum == total + total2)
     {
         // the shares are placed without gap or overlap: in rank order the ranks see exactly the serial point sequence
         counting_integrand<T>::points().clear();
         vf::script_engine gen;
         (void) hep::plain_iteration(hep::make_integrand<T>(counting_integrand<T>(), 2), total, gen);
-        (void) hep::plain_iteration(hep::make_integrand<T>(counting_integrand<T>(), 2), total, gen);
+        (void) hep::plain_iteration(hep::make_integrand<T>(counting_integrand<T>(), 2), total2, gen);
         auto const serial = counting_integrand<T>::points();
         sz pos = 0;
         // rank k's log holds its share of the first iteration followed by its share of the second one
         for (int iter = 0; iter != 2; ++iter)
         for (int k = 0; k != world; ++k)
-            for (sz j = 0; j != share(total, k, world); ++j)
+            for (sz j = 0; j != share(iter == 0 ? total : total2, k, world); ++j)
             {
                 auto const& pt = rank_points[k][iter * share(total, k, world) + j];
                 if (pos >= serial.size() || !vf::same_bits(pt[0], serial[pos][0]) || !vf::same_bits(pt[1], serial[pos][1]))
@@ -316,6 +319,8 @@ int main(int argc, char** argv)
             for (sz t : totals)
             {
                 part_b<double>(r, kind, t, w);
+                part_b<double>(r, kind, t, w, t + 1);                    // iterations of different sizes: another remainder per iteration
+                if (w > 2) part_b<double>(r, kind, t + 2, w, t);
                 if (a.thorough()) { part_b<float>(r, kind, t, w); part_b<long double>(r, kind, t, w); }
             }
         if (a.thorough() || a.replay) part_b_large(r, (sz(1) << 31) + 3, 4);
